@@ -412,6 +412,17 @@ func (fg *FunctionGenerator) AccessList(list Value, index Value) (Value, error) 
 	}
 }
 
+// callRecover calls the given function and returns a panic as an error.
+func callRecover(f funcGen.ParserFunc[Value], st funcGen.Stack[Value], cs []Value) (val Value, err error) {
+	defer func() {
+		if rec := recover(); rec != nil {
+			val = nil
+			err = parser2.AnyToError(rec)
+		}
+	}()
+	return f(st, cs)
+}
+
 func (fg *FunctionGenerator) GenerateCustom(ast parser2.AST, gc funcGen.GeneratorContext, g *funcGen.FunctionGenerator[Value]) (funcGen.ParserFunc[Value], bool, error) {
 	if tc, ok := ast.(*parser2.TryCatch); ok {
 		tryFunc, tPure, err := g.GenerateFunc(tc.Try, gc)
@@ -424,7 +435,7 @@ func (fg *FunctionGenerator) GenerateCustom(ast parser2.AST, gc funcGen.Generato
 		}
 		l := tc.GetLine()
 		return func(st funcGen.Stack[Value], cs []Value) (Value, error) {
-			tryVal, tryErr := tryFunc(st, cs)
+			tryVal, tryErr := callRecover(tryFunc, st, cs)
 			if tryErr == nil {
 				return tryVal, nil
 			}
